@@ -4,7 +4,7 @@ import (
 	"go/constant"
 	"go/token"
 
-	"golang.org/x/tools/go/ssa"
+	"verif/third_party/xtools/go/ssa"
 )
 
 // A Guard is a branch decision that every execution reaching a block has
